@@ -66,6 +66,11 @@ def r1(ctx, F, hub):
                           'file content is created directly at a %s path (a reader can observe partial or unverified bytes)' % cls, term_loc(b, bb))
         elif short == 'rename':
             ok = classes[0] == 'staging' and classes[1] in ('live',)
+            if not ok and classes == ['staging', 'control']:
+                # a file of the control directory (an index, a marker) replaced atomically from its own staging file: not a live name -
+                # List hides the directory and no Get reaches it (that it is not the lock file is C03.R1's business)
+                ctx.ok('C10.R1', key, 'rename(staging -> a control-directory file): no live name is bound', term_loc(b, bb))
+                continue
             ctx.check(ok, 'C10.R1', key, 'rename(staging -> live)', 'rename with unexpected endpoints %s (live names must be bound from staging only)' % classes, term_loc(b, bb))
         elif short in ('remove_file',):
             ok = classes[0] in ('staging', 'live')
